@@ -110,6 +110,7 @@ class World:
         self.bw_events = []
         self.bw_sleeps = []
         self.multi = bool((scenario.get('knobs') or {}).get('sibling') == 'traffic')
+        self.serial = bool((scenario.get('knobs') or {}).get('serial'))
         self.body_release = {}
 
     # ---- hooks called by stubs ---------------------------------------------
@@ -121,6 +122,11 @@ class World:
             return        # library code run while an aborted run is unwound
         if self.multi and prop in ('C10', 'C11', 'C12', 'C18'):
             return        # per-manager limits: not judged when two managers transfer
+        if self.serial and prop not in ('C01', 'C02', 'C03', 'C05', 'C06', 'C09', 'C16'):
+            # serial mode (no threads) with Ctrl-C inside a request: only the
+            # effect properties are judged; the statements about callbacks,
+            # cancellation entry points and stages are about the threaded manager
+            return
         self.violations.append((prop, cls, msg, sig or {}))
 
     def latency(self, op, m):
@@ -297,12 +303,31 @@ class World:
                         ex.pending_bytes -= nbytes
                         if tagname is not False:
                             world.tag_occ[tagname] -= 1
-                        if owned is not None and owned[0] is body:
+                        if owned is not None and owned[0] is body and \
+                                not world._still_referenced(fn, body):
                             owned[1]()
                 run._task = fn
                 return super().submit(run, *args, **kwargs)
 
         return CountingExecutor
+
+    @staticmethod
+    def _still_referenced(task, body):
+        """An unclosed part body whose task has finished is garbage - unless the
+        library itself still holds on to it (e.g. through a callback registered
+        with the transfer's coordinator)."""
+        coord = getattr(task, '_transfer_coordinator', None)
+        inner = getattr(body, '_fileobj', None)
+        for attr in ('_failure_cleanups', '_done_callbacks'):
+            for fc in list(getattr(coord, attr, None) or ()):
+                fn = getattr(fc, '_func', fc)
+                owner = getattr(fn, '__self__', None)
+                if owner is not None and (owner is body or owner is inner):
+                    return True
+                for a in getattr(fc, '_args', ()) or ():
+                    if a is body or a is inner:
+                        return True
+        return False
 
     def _observe_tags(self):
         """Remember which semaphore (stage or tag) each request task was
@@ -478,17 +503,23 @@ class World:
             full = pattern(idx, size + off)
             t['expect'] = full[off:]
             if spec['src'] == 'path':
-                t['path'] = '/d/up%d' % idx
+                t['path'] = spec.get('path_override') or '/d/up%d' % idx
                 self.fs.files[t['path']] = bytearray(full)
                 t['fileobj'] = t['path']
             elif spec['src'] == 'seekable':
                 cls = DuckSeekableSource if spec.get('duck') else SeekableSource
-                t['fileobj'] = cls(self, idx, full, off)
+                # (short reads only where the body is streamed straight from
+                # the user's object - a single PutObject; the part slicer of the
+                # multipart path relies on read(n) returning n bytes, as file
+                # objects and BytesIO do)
+                short = bool(spec.get('short_seekable')) and \
+                    size < self.config['multipart_threshold']
+                t['fileobj'] = cls(self, idx, full, off, short)
             else:
                 t['fileobj'] = NonSeekableSource(self, idx, full,
                                                  short=spec.get('short_src', False))
         elif ty == 'download':
-            t['key'] = 'o%d' % idx
+            t['key'] = spec.get('key_override') or 'o%d' % idx
             data = pattern(idx, size)
             t['expect'] = data
             self.s3.objects[(BUCKET, t['key'])] = data
@@ -512,7 +543,7 @@ class World:
                 t['fileobj'] = NonSeekableDest(self, idx)
         elif ty == 'copy':
             t['key'] = 'k%d' % idx
-            t['src_key'] = 'src%d' % idx
+            t['src_key'] = spec.get('key_override') or 'src%d' % idx
             data = pattern(idx, size)
             t['expect'] = data
             self.s3.objects[(BUCKET, t['src_key'])] = data
@@ -534,6 +565,17 @@ class World:
             return None
         extra = dict(spec.get('extra_args') or {})
         t['submit_stamp'] = self.sim.stamp()
+        if self.serial:
+            try:
+                return self._submit_inner(t, m, spec, ty, extra)
+            except KeyboardInterrupt as e:
+                # the interrupt escaped the call that runs the whole transfer
+                t['submit_raised'] = e
+                self.probe('serial-interrupt-escaped-submit')
+                return None
+        return self._submit_inner(t, m, spec, ty, extra)
+
+    def _submit_inner(self, t, m, spec, ty, extra):
         if ty == 'upload':
             f = m.upload(t['fileobj'], BUCKET, t['key'], extra_args=extra,
                          subscribers=t['subs'])
@@ -556,7 +598,12 @@ class World:
         try:
             v = t['future'].result()
             t['outcome'] = ('ok', v, self.sim.stamp())
-        except KeyboardInterrupt:
+        except KeyboardInterrupt as e:
+            if self.serial:
+                # the stored outcome of a transfer that was interrupted while it
+                # ran on this thread
+                t['outcome'] = ('exc', e, self.sim.stamp())
+                return
             # TransferFuture.result() cancelled this transfer itself
             ev = {'how': 'interrupt-result', 't': t['idx'], 'status': None,
                   'exc_before': None, 'stamp': self.sim.stamp(),
@@ -584,8 +631,15 @@ class World:
         self.fs.invariants.append(self._dest_invariant)
         for spec in sc['transfers']:
             self._prepare_transfer(spec)
-        self.manager = TransferManager(self.s3, cfg, osutil,
-                                       executor_cls=self.make_executor_cls())
+        if self.serial:
+            # use_threads=False: the library's NonThreadedExecutor runs every
+            # task inline on the caller's thread
+            from s3transfer.futures import NonThreadedExecutor
+            self.manager = TransferManager(self.s3, cfg, osutil,
+                                           executor_cls=NonThreadedExecutor)
+        else:
+            self.manager = TransferManager(self.s3, cfg, osutil,
+                                           executor_cls=self.make_executor_cls())
         self._wrap_controller()
         self._observe_tags()
         self.sibling = None
